@@ -49,6 +49,9 @@ DOCS = {
   "A11": [st("html"), st("body"), st("div", ' class="x"', True), txlt("if (a ", "< b)"), st("p"), tx("t"), et("p"), et("div"), st("div"), txlt("1 <", " 2"), et("div"), et("body"), et("html")],
   # ~big~ is expanded by the harness to 70 000 highly compressible bytes
   "A12": [st("html"), st("body"), tx("~big~"), st("p"), tx("t"), et("p"), et("body"), et("html")],
+  # ~rnd~ is expanded by the harness to 70 000 bytes of noise (letters and digits): it hardly compresses, so one call of an
+  # encoder stage has to emit more than any internal buffer of the codec holds
+  "A17": [st("html"), st("body"), tx("~rnd~"), st("p"), tx("t"), et("p"), et("body"), et("html")],
   # upper-case elements carrying the selector's class; a '>' inside a quoted attribute of a target without a selector hit
   "A13": [st("html", upper=True), st("head", upper=True), st("meta", ' CLASS="x"', True, upper=True), et("head", upper=True), st("body", ' data-if="a > b"', upper=True),
           st("div", " title='1>0'"), tx("hi"), et("div"), st("p", ' class="x"', True, upper=True), tx("t"), et("p", upper=True), et("body", upper=True), et("html", upper=True)],
@@ -128,6 +131,9 @@ FILTERS = {
   "F33": fl(("append", ["html", "body"], "empty"), ("prepend", ["html", "body"], "empty")),
   "F34": fl(("replace", ["html", "body", "p"], "none", ""), ("append", ["html", "body"], "none")),
   "F35": fl(("replace", ["html", "head", "meta"], "empty")),
+  # an html stage BEFORE a text replace (the replace drops what the stages before it produced), and after it
+  "F36": fl(("append", ["html", "body"], "none"), ("text_replace", [], "none")),
+  "F37": fl(("text_replace", [], "none"), ("append", ["html", "body"], "none")),
   # a non-empty list that builds nothing (unknown action): only used by the pipeline cases
   "F29": fl(("unknown", ["html", "body"], "none")),
 }
@@ -147,7 +153,7 @@ def main():
     out.append("DocsWell == {%s}" % ", ".join(n for n in DOCS if n.startswith("A")))
     out.append("DocsMessy == {%s}" % ", ".join(n for n in DOCS if n.startswith("B")))
     out.append("FiltersAll == {%s}" % ", ".join(f for f in FILTERS if f != "F29"))
-    out.append("FiltersQuick == {F1, F2, F3, F4, F5, F6, F7, F8, F10, F11, F12, F16, F21, F23, F24, F25, F26, F27, F30, F31, F32, F33, F34, F35}")
+    out.append("FiltersQuick == {F1, F2, F3, F4, F5, F6, F7, F8, F10, F11, F12, F16, F21, F23, F24, F25, F26, F27, F30, F31, F32, F33, F34, F35, F36}")
     out.append("DocsQuick == {A2, A3, A7, A8, A9, A10, A11, A13, A14, A15, A16, B1, B2, B3, B4, B5, B7, B11, B12, B13, B14, B15}")
     out.append("CasesQuick == Prod(DocsQuick, FiltersQuick)")
     out.append("CasesAll == Prod(DocsWell \\cup DocsMessy, FiltersAll)")
